@@ -207,9 +207,9 @@ func (p *Pri) Disasm() (o []byte, pn interface{}) {
 	o = p.C.DisassembleCurrentPC(nil)
 	return
 }
-func (p *Pri) SetOnWDM(f func(byte))          { p.C.OnWDM = f }
-func (p *Pri) SetOnPC(m map[uint32]func())    { p.C.OnPC = m }
-func (p *Pri) FlagBytes() [8]byte             { c := p.C; return [8]byte{c.C, c.Z, c.I, c.D, c.X, c.M, c.V, c.N} }
+func (p *Pri) SetOnWDM(f func(byte))       { p.C.OnWDM = f }
+func (p *Pri) SetOnPC(m map[uint32]func()) { p.C.OnPC = m }
+func (p *Pri) FlagBytes() [8]byte          { c := p.C; return [8]byte{c.C, c.Z, c.I, c.D, c.X, c.M, c.V, c.N} }
 
 // ---- alternative interpreter
 
